@@ -177,16 +177,9 @@ theorem parElasticityOf_restores (vars : Row) (t : Rat) (normalized : Bool) (d :
   obtain ⟨c2, h2, h⟩ := bind_ok h
   obtain ⟨lo, _, h⟩ := bind_ok h
   obtain ⟨c3, h3, h⟩ := bind_ok h
-  have hc3 : c3 = c' := by
-    cases normalized with
-    | false =>
-      simp only [Bool.false_eq_true, if_false, pure, Except.pure, bind, Except.bind] at h
-      cases h; rfl
-    | true =>
-      simp only [if_true] at h
-      obtain ⟨base, _, h⟩ := bind_ok h
-      simp only [pure, Except.pure] at h
-      cases h; rfl
+  obtain ⟨base, _, h⟩ := bind_ok h
+  simp only [pure, Except.pure, Except.ok.injEq, Prod.mk.injEq] at h
+  have hc3 : c3 = c' := h.1
   subst hc3
   have := getParameterValues_ok c pv hpv
   subst this
@@ -606,5 +599,82 @@ theorem foldCols_eq_mapM (f : Content → Name → Except Err (Content × Column
       rw [ih]
       generalize (rest.mapM fun p => colOf p (f c1 p)) = m
       cases m <;> rfl
+
+/-! ### bias of the central difference for a general order -/
+
+theorem rat_sq_nonneg (d : Rat) : 0 ≤ d * d := by
+  rcases (Rat.le_total : 0 ≤ d ∨ d ≤ 0) with h | h
+  · exact Rat.mul_nonneg h h
+  · have h' : 0 ≤ -d := by grind
+    have := Rat.mul_nonneg h' h'
+    grind
+
+def evenCD (d : Rat) (n : Nat) : Rat := ((1 + d) ^ n + (1 - d) ^ n) / 2
+
+theorem cd_rec (d : Rat) (hd : d ≠ 0) (n : Nat) :
+    scaledCD d (n + 1) = scaledCD d n + evenCD d n ∧ evenCD d (n + 1) = evenCD d n + d ^ 2 * scaledCD d n := by
+  simp only [scaledCD, evenCD, Rat.pow_succ]
+  generalize (1 + d) ^ n = P
+  generalize (1 - d) ^ n = Q
+  constructor <;> grind
+
+theorem cd_lower (d : Rat) (hd : d ≠ 0) : ∀ n : Nat, (n : Rat) ≤ scaledCD d n ∧ 1 ≤ evenCD d n := by
+  intro n
+  induction n with
+  | zero => simp only [scaledCD, evenCD]; constructor <;> grind
+  | succ n ih =>
+    obtain ⟨h1, h2⟩ := cd_rec d hd n
+    obtain ⟨i1, i2⟩ := ih
+    have hs : 0 ≤ scaledCD d n := by
+      have : (0 : Rat) ≤ (n : Rat) := by exact_mod_cast Nat.zero_le n
+      grind
+    have hd2 : 0 ≤ d ^ 2 * scaledCD d n := by
+      apply Rat.mul_nonneg
+      · have : d ^ 2 = d * d := by grind
+        rw [this]; exact rat_sq_nonneg d
+      · exact hs
+    constructor
+    · rw [h1]; push_cast; grind
+    · rw [h2]; grind
+
+/-- `Π_{k<n} (1 + k·d²)` -/
+def prodUp (d : Rat) : Nat → Rat
+  | 0 => 1
+  | n + 1 => prodUp d n * (1 + (n : Rat) * d ^ 2)
+
+
+theorem cd_upper (d : Rat) (hd : d ≠ 0) : ∀ n : Nat,
+    scaledCD d n ≤ (n : Rat) * evenCD d n ∧ evenCD d n ≤ prodUp d n := by
+  intro n
+  induction n with
+  | zero => simp only [scaledCD, evenCD, prodUp]; constructor <;> grind
+  | succ n ih =>
+    obtain ⟨h1, h2⟩ := cd_rec d hd n
+    obtain ⟨i1, i2⟩ := ih
+    obtain ⟨l1, l2⟩ := cd_lower d hd n
+    have hn : (0 : Rat) ≤ (n : Rat) := by exact_mod_cast Nat.zero_le n
+    have hd2 : 0 ≤ d ^ 2 := by
+      have : d ^ 2 = d * d := by grind
+      rw [this]; exact rat_sq_nonneg d
+    have hs : 0 ≤ scaledCD d n := by grind
+    have hmono : evenCD d n ≤ evenCD d (n + 1) := by
+      rw [h2]
+      have := Rat.mul_nonneg hd2 hs
+      grind
+    have hA : d ^ 2 * scaledCD d n ≤ d ^ 2 * ((n : Rat) * evenCD d n) :=
+      Rat.mul_le_mul_of_nonneg_left i1 hd2
+    have hB : evenCD d n * (1 + (n : Rat) * d ^ 2) ≤ prodUp d n * (1 + (n : Rat) * d ^ 2) := by
+      apply Rat.mul_le_mul_of_nonneg_right i2
+      have := Rat.mul_nonneg hn hd2
+      grind
+    constructor
+    · rw [h1]
+      have hC : ((n : Rat) + 1) * evenCD d n ≤ ((n : Rat) + 1) * evenCD d (n + 1) :=
+        Rat.mul_le_mul_of_nonneg_left hmono (by grind)
+      push_cast
+      grind
+    · rw [h2]
+      simp only [prodUp]
+      grind
 
 end Mxl.C18
